@@ -10,16 +10,19 @@ package drivers
 
 import (
 	"context"
-	"errors"
 	"encoding/binary"
 	"encoding/json"
+	"errors"
 	"fmt"
 	"io"
 	"math/rand"
 	"net"
+	"os"
+	"path/filepath"
 	"runtime"
 	"strings"
 	"sync"
+	"syscall"
 	"time"
 
 	"github.com/TheManticoreProject/Manticore/network/llmnr"
@@ -523,7 +526,35 @@ func llmnrLifecycles(c *h.Ctx) {
 	}
 }
 
+// llmnrMulticastLock: the LLMNR client sends to the well-known multicast group and port (constants of the library), so two
+// instances of this driver running at the same time on one machine would answer each other's queries. The section is
+// serialised across processes with an advisory lock on a file in the temporary directory (created on demand).
+func llmnrMulticastLock() (release func(), ok bool) {
+	f, err := os.OpenFile(filepath.Join(os.TempDir(), "verif-llmnr-multicast.lock"), os.O_CREATE|os.O_RDWR, 0o666)
+	if err != nil {
+		return func() {}, true // no lock file can be had: run unserialised, as before
+	}
+	got := make(chan error, 1)
+	go func() { got <- syscall.Flock(int(f.Fd()), syscall.LOCK_EX) }()
+	select {
+	case err := <-got:
+		if err != nil {
+			f.Close()
+			return func() {}, true
+		}
+		return func() { syscall.Flock(int(f.Fd()), syscall.LOCK_UN); f.Close() }, true
+	case <-time.After(5 * time.Minute):
+		return func() { f.Close() }, false
+	}
+}
+
 func freeLLMNRClient(c *h.Ctx, lg *evLog, queries int, seed int64) error {
+	release, okLock := llmnrMulticastLock()
+	defer release()
+	if !okLock {
+		c.Set("llmnr_client_skipped", "another instance held the LLMNR multicast section for more than 5 minutes")
+		return nil
+	}
 	group := &net.UDPAddr{IP: net.ParseIP(llmnr.IPv4MulticastAddr), Port: llmnr.LLMNRPort}
 	rc, err := net.ListenMulticastUDP("udp4", nil, group)
 	if err != nil {
